@@ -418,7 +418,7 @@ def run(ctx):
                 "KELVIN SIGN, E acute, capital sharp s, dotted capital I, missing trailing dot, white space, NFD; %d spellings of a host; SRV numbers "
                 "beyond 16 bits; NSEC lists with a repeated type): every pair under one name and every pair with the same rdata under two names "
                 "+ %d sampled pairs over an extended vocabulary of %d records + all %d pairs of %d questions + %d lists of 1-4 stored records "
-                "through DNSRRSet.suppresses, DNSRecord.suppressed_by(message) and the additional-section duplicate removal of a reply; oracle and "
+                "through DNSRRSet.suppresses, DNSRecord.suppressed_by(message) and the additional-section duplicate removal of a reply + (oracle only) DNSCache look-ups, records heard on the wire with scope None/0/3, QuestionHistory over all question pairs, and every object that went through QueryHandler.async_response re-checked for a stale cached hash; oracle and "
                 "model line are computed from the constructor arguments, never from the object; case folding by the oracle's own table, not "
                 "str.lower(); non-trivial = distinct (kind pair, which-fields-differ, ttl/flush/spelling differ) signature among pairs that are "
                 "equal or differ in exactly one identity-relevant respect"
@@ -540,6 +540,8 @@ def run(ctx):
         if same:
             res.nontriv("cache/%s/%s" % (kn, da[1] != db[1]))
     wire_stream(res, core)
+    history_stream(res, qs)
+    handled_stream(res)
     # questions are never equal to records
     for q in q_obj[:20]:
         for r in core_obj[:40]:
@@ -568,6 +570,146 @@ def spec_wire(d, scope):
     else:
         rdi = rd
     return (kind, fold(name), type_, c % 32768, rdi)
+
+
+def history_stream(res, qs):
+    """the container that relies on QUESTION identity: `QuestionHistory` (duplicate-question suppression).  A question asked
+    100 ms ago with the same (empty) set of known answers suppresses exactly the questions that are the same question --
+    name case-insensitively, type, class without the QU bit -- whatever the spelling."""
+    from zeroconf._dns import DNSQuestion
+    from zeroconf._history import QuestionHistory
+
+    for qa in qs:
+        ia = (fold(qa[0]), qa[1], qa[2] % 32768)
+        for qb in qs:
+            res.evaluations += 1
+            h = QuestionHistory()
+            h.add_question_at_time(DNSQuestion(*qa), 1000.0, set())
+            got = bool(h.suppresses(DNSQuestion(*qb), 1100.0, set()))
+            want = ia == (fold(qb[0]), qb[1], qb[2] % 32768)
+            if got != want:
+                res.violate("C20:question-history:%s" % ("split" if want else "merged"),
+                            "a question asked 100 ms ago with the same known answers %s a question that is %s question (name case-insensitively, "
+                            "type, class without the QU bit)" % ("suppresses" if got else "does not suppress", "the same" if want else "another"),
+                            {"asked": list(qa), "asking": list(qb)})
+            if want:
+                res.nontriv("qhist/%s/%s" % (qa[0] != qb[0], (qa[2] >= 32768) != (qb[2] >= 32768)))
+
+
+def _rebuilt(o):
+    """a record / question constructed NOW from the present attributes of `o` (class with the flush / QU bit)"""
+    from zeroconf import _dns as z
+
+    c = o.class_ | (UNIQUE if o.unique else 0)
+    if isinstance(o, z.DNSQuestion):
+        return z.DNSQuestion(o.name, o.type, c)
+    if isinstance(o, z.DNSAddress):
+        return z.DNSAddress(o.name, o.type, c, o.ttl, o.address, scope_id=o.scope_id, created=o.created)
+    if isinstance(o, z.DNSHinfo):
+        return z.DNSHinfo(o.name, o.type, c, o.ttl, o.cpu, o.os, created=o.created)
+    if isinstance(o, z.DNSPointer):
+        return z.DNSPointer(o.name, o.type, c, o.ttl, o.alias, created=o.created)
+    if isinstance(o, z.DNSText):
+        return z.DNSText(o.name, o.type, c, o.ttl, o.text, created=o.created)
+    if isinstance(o, z.DNSService):
+        return z.DNSService(o.name, o.type, c, o.ttl, o.priority, o.weight, o.port, o.server, created=o.created)
+    if isinstance(o, z.DNSNsec):
+        return z.DNSNsec(o.name, o.type, c, o.ttl, o.next_name, list(o.rdtypes), created=o.created)
+    return None
+
+
+def handled_stream(res):
+    """records and questions AFTER the library's own post-construction paths.  `__hash__` is cached at construction, so identity
+    (equal => equal hash; set / dict look-ups) only holds as long as nobody writes an identity attribute afterwards.  A host with
+    one registered service (A + link-local AAAA) answers queries -- every question type, our own records listed as known answers
+    at full TTL, heard on a socket without scope and on IPv6 sockets with scope 0 and 3 -- through the real
+    `QueryHandler.async_response`; then every object the handler saw or produced (the message's questions and answers, the
+    question history's stored sets, the answers offered, our own records) is re-checked: (i) its cached hash is the hash of a
+    record constructed now from its present attributes, (ii) among all of them equal objects have equal hashes, (iii) a
+    `DNSRRSet` of the message's answers finds exactly the own records that are equal to one of them."""
+    import types as _types
+
+    try:
+        from zeroconf import DNSCache, DNSIncoming, DNSOutgoing, ServiceInfo, const
+        from zeroconf._dns import DNSQuestion, DNSRRSet
+        from zeroconf._handlers.query_handler import QueryHandler
+        from zeroconf._history import QuestionHistory
+        from zeroconf._services.registry import ServiceRegistry
+
+        info = ServiceInfo("_http._tcp.local.", "foo._http._tcp.local.", port=80, server="host.local.", properties={"a": "1"},
+                           addresses=[b"\x0a\x00\x00\x01", V6])
+        reg = ServiceRegistry()
+        reg.async_add(info)
+    except Exception as ex:  # noqa: BLE001 - registry / ServiceInfo are other properties' business; here only a vehicle
+        res.notes.append("C20 handled stream skipped: %r" % ex)
+        return
+
+    def own():
+        return [info.dns_pointer(), info.dns_service(), info.dns_text()] + list(info.dns_addresses())
+
+    questions = [("_http._tcp.local.", T_PTR), ("_HTTP._TCP.local.", T_PTR), ("foo._http._tcp.local.", T_SRV), ("foo._http._tcp.local.", T_TXT),
+                 ("foo._http._tcp.local.", T_ANY), ("host.local.", T_A), ("host.local.", T_AAAA), ("HOST.local.", T_AAAA), ("host.local.", T_ANY)]
+    now = 7000000.0
+    for scope in (None, 0, 3):
+        for qname, qtype in questions:
+            for qclass in (IN, IN | UNIQUE):
+                for with_known in (True, False):
+                    res.evaluations += 1
+                    case = {"question": [qname, qtype, qclass], "heard_on_scope": scope, "known_answers": "own records at full TTL" if with_known else "none",
+                            "service": "foo._http._tcp.local. port 80 host.local. 10.0.0.1 fe80::1"}
+                    try:
+                        out = DNSOutgoing(const._FLAGS_QR_QUERY)
+                        out.add_question(DNSQuestion(qname, qtype, qclass))
+                        if with_known:
+                            for r in own():
+                                out.add_answer_at_time(r, 0)
+                        msgs = [DNSIncoming(p, ("fe80::2", 5353), scope, now) for p in out.packets()]
+                        zc = _types.SimpleNamespace(registry=reg, cache=DNSCache(), question_history=QuestionHistory(), out_queue=None, out_delay_queue=None)
+                        qh = QueryHandler(zc)
+                        qa = qh.async_response(msgs, False)
+                    except Exception as ex:  # noqa: BLE001
+                        res.notes.append("C20 handled stream: query %r not handled: %r" % (case["question"], ex))
+                        continue
+                    heard = [a for m in msgs for a in m.answers()]
+                    objs = [("question of the message", q) for m in msgs for q in m._questions] + [("answer of the message", a) for a in heard]
+                    try:
+                        for k, (_t, known) in zc.question_history._history.items():
+                            objs.append(("key of the question history", k))
+                            objs += [("known answer stored in the question history", r) for r in known]
+                    except Exception:  # noqa: BLE001 - another container layout: nothing to re-check there
+                        pass
+                    if qa is not None:
+                        for bucket in (qa.ucast, qa.mcast_now, qa.mcast_aggregate, qa.mcast_aggregate_last_second):
+                            for r, adds in bucket.items():
+                                objs.append(("record offered as answer", r))
+                                objs += [("record offered as additional", x) for x in adds]
+                    mine = own()
+                    objs += [("own record", r) for r in mine]
+                    # (i) a cached hash that no longer belongs to the object's attributes
+                    for what, o in objs:
+                        rb = _rebuilt(o) if not isinstance(o, tuple) else None
+                        if rb is not None and (hash(o) != hash(rb) or not (o == rb)):
+                            res.violate("C20:mutated-after-construction:%s" % type(o).__name__,
+                                        "after QueryHandler.async_response a %s no longer has the hash of a record constructed from its present attributes "
+                                        "(identity attributes were written after construction; __hash__ is cached)" % what, dict(case, object=repr(o), scope_id=getattr(o, "scope_id", None)))
+                    # (ii) equal => equal hash among everything the handler touched
+                    recs = [(w, o) for w, o in objs if not isinstance(o, tuple)]
+                    for i, (wa, a) in enumerate(recs):
+                        for wb, b in recs[i + 1:]:
+                            if type(a) is type(b) and a == b and hash(a) != hash(b):
+                                res.violate("C20:handled-equal-unequal-hash:%s" % type(a).__name__,
+                                            "after QueryHandler.async_response a %s and a %s compare equal but hash differently" % (wa, wb),
+                                            dict(case, a=repr(a), b=repr(b)))
+                    # (iii) the set look-up known-answer suppression relies on
+                    look = DNSRRSet(heard).lookup
+                    look = look() if callable(look) else look
+                    for r in mine:
+                        lin = any(type(a) is type(r) and a == r for a in heard)
+                        if (look.get(r) is not None) != lin:
+                            res.violate("C20:handled-rrset-lookup:%s" % type(r).__name__,
+                                        "after QueryHandler.async_response the known answers %s a record equal to our own %s, the DNSRRSet look-up says %s"
+                                        % ("contain" if lin else "do not contain", type(r).__name__, look.get(r) is not None), dict(case, own=repr(r)))
+                    res.nontriv("handled/%s/%s/%s/%s" % (scope, qtype, qclass >= 32768, with_known))
 
 
 def wire_stream(res, core):
